@@ -74,12 +74,12 @@ def _variants(tv: TV, objects) -> Iterator[TV]:
                 yield T(tv.items[:i] + [v2] + tv.items[i + 1:])
     elif isinstance(tv, Mp):
         for k in list(tv.items):
-            yield Mp({a: b for a, b in tv.items.items() if a != k}, tv.intkeys)
+            yield tv.like({a: b for a, b in tv.items.items() if a != k})
         for k, v in tv.items.items():
             for v2 in _variants(v, objects):
                 d = dict(tv.items)
                 d[k] = v2
-                yield Mp(d, tv.intkeys)
+                yield tv.like(d)
     elif isinstance(tv, U):
         for v2 in _variants(tv.child, objects):
             yield U(tv.occ, tv.idx, tv.n, v2)
